@@ -1,7 +1,7 @@
 (* C11  Orientation counters stay consistent; orientation divisors obey K identities. *)
 From Coq Require Import ZArith List Bool.
 Import ListNotations.
-From CF Require Import ZSum ListAux Defs Reduced Core Machines OrientLink.
+From CF Require Import ZSum ListAux Defs Reduced Core Machines OrientLink OrientRound.
 Open Scope Z_scope.
 
 (* The invariant oinv: in/out counters equal the recount over edges currently pointing in/out, the two endpoint entries of every edge are
@@ -43,6 +43,30 @@ Theorem C11_plus_reverse_is_canonical : forall g, wfb g = true -> forall s, oinv
   forall v, (v < nv g)%nat -> (recount_in g (dir s) v - 1) + (recount_in g (dir s') v - 1) = valg g v - 2.
 Proof. exact orientation_plus_reverse. Qed.
 Print Assumptions C11_plus_reverse_is_canonical.
+(* directions are only ever stored on edges, over every history *)
+Theorem C11_edges_construct : forall g, wfb g = true -> forall os s, oconstruct g os = Ok s -> oedges g s.
+Proof. exact oconstruct_edges. Qed.
+Print Assumptions C11_edges_construct.
+Theorem C11_edges_history : forall g, wfb g = true -> forall ops s, oinv g s -> oedges g s -> oedges g (fold_left (oapply g) ops s).
+Proof. exact orientation_history_edges. Qed.
+Print Assumptions C11_edges_history.
+(* reverse() is granted exactly on full orientations and returns exactly the transposed orientation, for every reachable state *)
+Theorem C11_reverse_exact : forall g, wfb g = true -> forall s, oinv g s -> oedges g s -> match snd (o_reverse g s) with
+  | Ok s' => full_b g s = true /\ oinv g s' /\ oedges g s' /\ is_full_checked s' = true /\ forall a b, dir_at s' a b = dir_at s b a
+  | Err => full_b g s = false end.
+Proof. exact o_reverse_spec. Qed.
+Print Assumptions C11_reverse_exact.
+(* hence, with the actual result of reverse(): D(O) + D(reverse O) = K *)
+Theorem C11_reverse_canonical : forall g, wfb g = true -> forall s s', oinv g s -> oedges g s -> snd (o_reverse g s) = Ok s' ->
+  forall v, (v < nv g)%nat -> (recount_in g (dir s) v - 1) + (recount_in g (dir s') v - 1) = valg g v - 2.
+Proof. intros g Hwf s s' Hs He H v Hv. pose proof (o_reverse_spec g Hwf s Hs He) as R. rewrite H in R. destruct R as [Hf [Hs' [_ [_ Hd]]]].
+  exact (orientation_plus_reverse g Hwf s Hs Hf s' Hs' Hd v Hv). Qed.
+Print Assumptions C11_reverse_canonical.
+(* what the constructor builds from any list of distinct arcs (no edge in both directions) *)
+Theorem C11_constructor_exact : forall g, wfb g = true -> forall ps, arcs_ok g ps -> exists s', oconstruct g ps = Ok s' /\ oinv g s' /\ is_full_checked s' = true /\
+    forall x y, dir_at s' x y = if has ps x y then 1 else if has ps y x then 2 else 0.
+Proof. exact construct_spec. Qed.
+Print Assumptions C11_constructor_exact.
 (* acyclic (consistent with some vertex order) => the orientation divisor is unwinnable *)
 Theorem C11_acyclic_unwinnable : forall g, wfb g = true -> forall s, oinv g s -> full_b g s = true -> forall pos : nat -> nat, (0 < nv g)%nat ->
   (forall a b, (a < nv g)%nat -> (b < nv g)%nat -> 0 < mult g a b -> mult (dir s) a b = 1 -> (pos a < pos b)%nat) ->
